@@ -54,13 +54,47 @@ fn check_select(mask: u32) -> Option<Witness> {
     None
 }
 
+/// UPDATE / DELETE: every table / clause given is present, keywords in grammar order, dialect-only forms only in their dialect
+fn check_update(nfrom: usize, mask: u32) -> Option<Witness> {
+    let mut u = Query::update();
+    u.table(a("t")).value(a("c"), 1).value(a("d"), 2);
+    let names = ["f1", "f2", "f3"];
+    for n in names.iter().take(nfrom) { u.from(a(n)); }
+    if mask & 1 != 0 { u.and_where(Expr::col(a("c")).gt(1)); }
+    if mask & 2 != 0 { u.order_by(a("c"), Order::Asc); }
+    if mask & 4 != 0 { u.limit(3); }
+    let label = format!("update from {nfrom} tables mask {mask:#b}");
+    for (name, sql) in [("mysql", u.to_string(MysqlQueryBuilder)), ("postgres", u.to_string(PostgresQueryBuilder))] {
+        for n in names.iter().take(nfrom) {
+            if !sql.contains(&format!("{}{n}{}", if name == "mysql" { '`' } else { '"' }, if name == "mysql" { '`' } else { '"' })) {
+                return Some(Witness { property: "C08", input: label, observed: format!("{name}: {sql}"), expected: format!("table {n} given with from() is rendered") });
+            }
+        }
+        let got = keywords(&sql);
+        let urank = |k: &str| ["UPDATE ", " JOIN ", " SET ", " FROM ", " WHERE ", " ORDER BY ", " LIMIT ", " RETURNING "].iter().position(|x| *x == k).unwrap_or(99);
+        if !got.windows(2).all(|w| urank(w[0]) < urank(w[1])) {
+            return Some(Witness { property: "C08", input: label, observed: format!("{name}: {sql} -- keywords {got:?}"), expected: "keywords in grammar order, each once".into() });
+        }
+        if name == "mysql" && sql.contains(" FROM ") { return Some(Witness { property: "C08", input: label, observed: format!("{name}: {sql}"), expected: "no UPDATE..FROM on MySQL".into() }); }
+        if name == "postgres" && nfrom > 0 && !sql.contains(" FROM ") { return Some(Witness { property: "C08", input: label, observed: format!("{name}: {sql}"), expected: "UPDATE..FROM on Postgres".into() }); }
+        if mask & 1 != 0 && sql.matches("\"c\" > 1").count() + sql.matches("`c` > 1").count() != 1 { return Some(Witness { property: "C08", input: label, observed: format!("{name}: {sql}"), expected: "the condition is rendered exactly once".into() }); }
+    }
+    None
+}
+
 pub fn search(_obl: &str) -> Vec<Witness> {
     std::panic::set_hook(Box::new(|_| {}));
     let mut found = vec![];
+    for nfrom in 0..3usize { for mask in 0..8u32 { if let Ok(Some(w)) = std::panic::catch_unwind(|| check_update(nfrom, mask)) { found.push(w); } } }
     for mask in 0..1024u32 { if let Ok(Some(w)) = std::panic::catch_unwind(|| check_select(mask)) { found.push(w); if found.len() >= 5 { break; } } }
     found
 }
 pub fn check_one(label: &str) -> Option<Witness> {
+    if label.starts_with("update from") {
+        let n: usize = label.split(' ').nth(2)?.parse().ok()?;
+        let m = label.rsplit("0b").next().and_then(|b| u32::from_str_radix(b, 2).ok())?;
+        return check_update(n, m);
+    }
     let m = label.rsplit("0b").next().and_then(|b| u32::from_str_radix(b, 2).ok())?;
     std::panic::set_hook(Box::new(|_| {}));
     check_select(m)
